@@ -1724,6 +1724,15 @@ class Interp:
                 i = tm.const_val(idx)
                 if -len(vals) <= i < len(vals):
                     return vals[i]
+        if b.op in ("tuple", "list") and idx.op == "slice" and \
+                not any(x.op == "star" for x in b.args) and all(
+                    a is NONE or (tm.is_const(a) and
+                                  type(tm.const_val(a)) is int)
+                    for a in idx.args):
+            # a slice of a literal sequence
+            sl = slice(*[None if a is NONE else tm.const_val(a)
+                         for a in idx.args])
+            return T(b.op, *list(b.args)[sl])
         if b.op in ("tuple", "list") and tm.is_const(idx) and \
                 isinstance(tm.const_val(idx), int) and \
                 not isinstance(tm.const_val(idx), bool):
@@ -2291,6 +2300,15 @@ class Interp:
                 len(args) == 2 and len(kwargs) == 1 and \
                 kwargs[0][0] == "axis" and tm.is_const(kwargs[0][1], 0):
             return self.subscript(args[0], args[1])   # X[idx] along axis 0
+        if fn.op == "attr" and fn.args[1] == "index" and len(args) == 1 \
+                and not kwargs and tm.is_const(self.unname(args[0])):
+            su = self.unname(fn.args[0])
+            if su.op in ("tuple", "list") and all(tm.is_const(x)
+                                                  for x in su.args):
+                vals = [tm.const_val(x) for x in su.args]
+                if tm.const_val(self.unname(args[0])) in vals:
+                    return const(vals.index(
+                        tm.const_val(self.unname(args[0]))))
         if fn.op == "attr" and fn.args[1] == "__getitem__" and \
                 len(args) == 1 and not kwargs and args[0].op != "star":
             return tm.sub(fn.args[0], args[0])
